@@ -1,5 +1,6 @@
 import TantivyModel.Proofs.WriterHistory
 import TantivyModel.Proofs.WriterMergeMeta
+import TantivyModel.Proofs.WriterBook
 /-!
 # C02 — A commit publishes exactly the sequential effect of the operations before it
 
@@ -331,8 +332,10 @@ theorem C02_catchup_guard_le_counterexample :
       ∧ mergeCommitted 1 log 5 [a, b] = some ([2], 1) := by
   decide
 
-/-- **the early return of `advance_deletes` after a reverted stamper** (why the state machine of the
-refinement theorem, which uses the core `advance`, is NOT yet the bookkeeping one - open):
+/-- **the early return of `advance_deletes` after a reverted stamper** (why the refinement theorem,
+whose state machine uses the core `advance`, transfers to the machine with bookkeeping only while
+the stamper never goes back - `C02_bookkeeping_refines` / `C02_bookkeeping_counterexample`), at
+the level of one segment:
 `delete_all_documents` reverts the stamper to the stale `committed_opstamp` (F1/F3), below the
 opstamp `T = 10` of `meta.json`.  A merge of two new uncommitted segments is running while
 `delete 1` (opstamp 3) is pushed; `end_merge` sees `3 < T`, catches the merged segment up "to the
@@ -350,6 +353,57 @@ theorem C02_stale_catchup_lost_delete_counterexample :
     M1.delOp = some 10 ∧ aliveDocs M1 = [2]
       ∧ aliveDocs (advanceDeletes log2 10 M1) = [2]
       ∧ aliveDocs (advance log2 10 M1) = [] := by
+  decide
+
+/-! ## the state machine with the bookkeeping of `advance_deletes` (`Model/WriterBook.lean`) -/
+
+/-- **C02_bookkeeping_refines.**  `stepD` / `runD` is the state machine in which every
+`advance_deletes` of `commit`, `merge` and `end_merge` has its bookkeeping (the early return when
+the entry's `delete_opstamp` is the target; a new `delete_opstamp` only when more documents are
+deleted than recorded; metas kept by segment id, the merged entry new).  For EVERY event sequence
+as in `C02_commit_refines_replay_partial` in which the stamper never goes back (no
+`delete_all_documents`, no `rollback`; any merges, workers, commits) every run of that machine is,
+state by state, the run of the core machine - the early return only ever fires for a merge of
+committed segments at the last commit, where the core is the identity - and so publishes exactly
+the sequential replay.  With `delete_all_documents` this is false: `C02_bookkeeping_counterexample`;
+`rollback` (the stamper restarts AT `meta.opstamp`) is open. -/
+theorem C02_bookkeeping_refines [DecidableEq α] (n : Nat) (es : List (Event α)) (sD : WState α) (B : Book)
+    (hok : okRun2 (WState.init n) es) (hk : es.all bookOk = true)
+    (hrun : runD (WState.init n, Book.init) es = some (sD, B)) :
+    run (WState.init n) es = some sD
+      ∧ List.Perm (published sD) (replay (history es)).committed
+      ∧ List.Perm (live sD) (replay (history es)).pending := by
+  have h := runD_run (WState.init n) Book.init SpecState.init es (sD, B) (inv_init n) (minv_init n) (binv_init n) hok hk hrun
+  exact ⟨h, C02_commit_refines_replay_partial n es sD h hok⟩
+
+/-- not vacuous, and the early return is exercised: the first commit (4) records
+`delete_opstamp = 4` for segment 0, the merge of the committed segments (target 4) takes the early
+return for it, the last commit (6) writes the delete of document 2 into the merged segment -/
+example :
+    let es : List (Event Nat) :=
+      [.add 1, .add 3, .recv 0, .recv 0, .cut 0, .register, .add 2, .recv 0, .cut 0, .register,
+       .del (fun d => d == 1), .commit none, .mergeStart [0, 1] true, .del (fun d => d == 2), .mergeEnd 0, .commit none]
+    es.all bookOk = true
+      ∧ (runD (WState.init 1, Book.init) es).map (fun p => (published p.1, p.2.delOp 0, p.2.delOp 2))
+          = some ([3], some 4, some 6) := by
+  decide
+
+/-- **F11 in the state machine with bookkeeping** (`C02:reused-opstamp-advance-deletes-early-return`,
+reproduced on the real code by the harness scenario `stale_catchup`): five stamps, `commit` (5),
+`delete_all_documents` in a clean state (the stamper goes back to the stale `committed_opstamp` 0),
+two new segments, a merge of them (target 2) during which `delete 1` (3) is pushed - `end_merge`
+catches up to 5 and records it -, `delete 2` (4), `commit` - which draws 5 again: the machine with
+bookkeeping publishes 2, the core machine and the sequential replay nothing; the history satisfies
+the hypothesis `okHist` of `C02_commit_refines_replay_history`. -/
+theorem C02_bookkeeping_counterexample :
+    let es : List (Event Nat) :=
+      [.tick, .tick, .tick, .tick, .tick, .commit none, .deleteAll,
+       .add 1, .recv 0, .cut 0, .register, .add 2, .recv 0, .cut 0, .register,
+       .mergeStart [0, 1] true, .del (fun d => d == 1), .mergeEnd 0, .del (fun d => d == 2), .commit none]
+    (runD (WState.init 1, Book.init) es).map (fun p => (published p.1, p.1.metas.opstamp, p.2.delOp 2)) = some ([2], 5, some 5)
+      ∧ (run (WState.init 1) es).map published = some []
+      ∧ (replay (history es)).committed = []
+      ∧ okHistB HFlags.init (history es) = true := by
   decide
 
 /-! ## the delete-cursor discipline, for every segment and every merged entry -/
